@@ -377,7 +377,9 @@ func checkC01(e *core.Env) {
 		NewHTTPMux(&Service{}, carrierOpt{basePath: "/p/"}).InPieces(1),
 		NewHTTPServer(&Service{}, carrierOpt{}).InPieces(7),
 		NewHTTPServer(&Service{}, carrierOpt{}).Chunked(),
+		NewInproc(&Service{}, carrierOpt{cloner: inprocgrpc.CloneFunc(func(in interface{}) (interface{}, error) { return proto.Clone(in.(proto.Message)), nil })}),
 	}
+	variants[len(variants)-1].Name = "inproc-clonefunc"
 	variants[0].Name = "inproc-codec"
 	for _, c := range variants {
 		defer c.Close()
@@ -412,6 +414,44 @@ func checkC01(e *core.Env) {
 			return
 		}
 		runOne(c, sc)
+	})
+
+	// a request stream that breaks off right after the size preface of its second message, the connection ending
+	// cleanly there: the handler is not told that the client finished (the end of a stream that lost messages
+	// is an error, not the clean end that means "you have everything the client sent")
+	cutC := NewHTTPServer(&Service{}, carrierOpt{}).CutAfterSecondPreface()
+	defer cutC.Close()
+	e.Cases("request-cut-after-preface", e.N(12, 100), func(i int, r *rand.Rand) {
+		kind := pick(r, ClientStream, Bidi)
+		sc := &Script{Kind: kind, RecvAfterSend: true}
+		n := 2 + r.Intn(3)
+		for k := 0; k < n; k++ {
+			m := genMsg(r, fmt.Sprintf("cut-%d-%d", i, k), false)
+			if k < 2 && len(m.Payload) == 0 {
+				m.Payload = []byte("x") // (the first two frames are not empty: the cut is inside the second one)
+			}
+			sc.Sender = append(sc.Sender, Op{Op: "send", Msg: m, MsgD: msgDesc(m)})
+		}
+		sc.Sender = append(sc.Sender, Op{Op: "close"})
+		sc.Handler = []Op{{Op: "recvall"}, {Op: "send", Msg: &tpb.Message{Payload: []byte("reply")}}}
+		sc.Receiver = []Op{{Op: "recvall"}}
+		run, ok, _ := execScript(cutC, sc, nil)
+		if !ok {
+			e.Inconclusive("C01 request-cut-after-preface: watchdog")
+			return
+		}
+		e.Eval("request-cut-after-preface|"+kind.String(), true)
+		got, cleanEnd := 0, false
+		for _, ev := range run.Rets("h", "recv") {
+			if ev.Err == nil {
+				got++
+			} else if ev.Err == io.EOF {
+				cleanEnd = true
+			}
+		}
+		if cleanEnd && got < n {
+			e.Violate("delivery/http-server/"+kind.String()+"/request-cut/clean-end-with-messages-lost", fmt.Sprintf("the client sent %d messages; the request body broke off right after the size preface of the second one; the handler received %d and was then told the client had finished (io.EOF)", n, got), witness(run))
+		}
 	})
 
 	// concurrent RPCs on one channel
